@@ -3,6 +3,7 @@ Import ListNotations.
 Local Open Scope Z_scope.
 (* what the judge says about one case: acceptable?, the model's own answer, is the case non-trivial? *)
 Record verdict := mkV { v_ok : bool; v_model : list Z; v_nontrivial : bool }.
+Definition b2z (b : bool) : Z := if b then 1 else 0.
 Fixpoint list_eqb (a b : list Z) : bool :=
   match a, b with
   | [], [] => true
